@@ -1347,8 +1347,11 @@ fn main() {
         }
         let one = Config { sub: true, global: None, root: Some("/a\n".into()), nested: None };
         let two = Config { sub: true, global: None, root: Some("b\n".into()), nested: Some("!b\n".into()) };
-        for round in 0..3 {
+        for round in 0..2 {
             for stream in [true, false] {
+                if !stream && round > 0 {
+                    continue;
+                }
                 let mut ask = |cfg: &Config, li: usize| {
                     if stream { env.ask_sub_stream(cfg, &layouts, li).1 } else { env.ask_sub_oneshot(cfg, &layouts, li).1 }
                 };
@@ -1378,46 +1381,145 @@ fn main() {
 
     let ls = line_sets();
     let fams = families(ctx.thorough(), &ls);
+    let snap_cfgs = snapshot_family(ctx.thorough(), &ls);
     let samples = Samples::new(8);
-    let mut total = Tally::default();
-    let mut family_counts = serde_json::Map::new();
     let cross_checked = Counter::new();
     // violations other than the one attributed cause (vacuity is only enforced without them)
     let other_violations = Counter::new();
-    for (name, cfgs) in &fams {
-        let tally = cfgs
-            .par_iter()
-            .enumerate()
-            .fold(Tally::default, |mut tally, (i, cfg)| {
-                let mut env = env_for_thread();
-                let before = tally.git_ignored;
-                let found = if cfg.sub {
+    let snap_runs = Counter::new();
+    let snap_tracked = Counter::new();
+    let snap_ignored = Counter::new();
+
+    // One pool of work items for everything: a (configuration, layout) pair of arrangement top
+    // (one git process), a configuration of arrangement sub (long-lived process), a snapshot of
+    // route 2. The expensive top items are spread evenly over the list.
+    enum Work<'a> {
+        Top { fam: usize, ci: usize, cfg: &'a Config, li: usize },
+        Sub { fam: usize, ci: usize, cfg: &'a Config },
+        Snap { cfg: &'a Config, li: usize },
+    }
+    let mut slow: Vec<Work> = vec![];
+    let mut fast: Vec<Work> = vec![];
+    for (fam, (_, cfgs)) in fams.iter().enumerate() {
+        for (ci, cfg) in cfgs.iter().enumerate() {
+            if cfg.sub {
+                fast.push(Work::Sub { fam, ci, cfg });
+            } else {
+                for li in layouts_for(cfg, ctx.thorough()) {
+                    slow.push(Work::Top { fam, ci, cfg, li });
+                }
+            }
+        }
+    }
+    for cfg in &snap_cfgs {
+        let l1 = if cfg.nested.is_some() { L1N } else { L1 };
+        for li in [l1, L2, L3] {
+            fast.push(Work::Snap { cfg, li });
+        }
+    }
+    let stride = (fast.len() / slow.len().max(1)).max(1);
+    let mut items: Vec<Work> = Vec::with_capacity(slow.len() + fast.len());
+    let mut slow_it = slow.into_iter();
+    for (i, w) in fast.into_iter().enumerate() {
+        if i % stride == 0
+            && let Some(s) = slow_it.next()
+        {
+            items.push(s);
+        }
+        items.push(w);
+    }
+    items.extend(slow_it);
+    // per configuration of arrangement top: bit 1 = some path ignored, bit 2 = a negation decided
+    let top_flags: Vec<Vec<std::sync::atomic::AtomicU8>> = fams
+        .iter()
+        .map(|(_, cfgs)| cfgs.iter().map(|_| std::sync::atomic::AtomicU8::new(0)).collect())
+        .collect();
+    let new_tallies = || -> Vec<Tally> { fams.iter().map(|_| Tally::default()).collect() };
+    let mut fam_tallies: Vec<Tally> = items
+        .par_iter()
+        .with_max_len(32)
+        .fold(new_tallies, |mut tallies, work| {
+            let mut found: Vec<Mismatch> = vec![];
+            match work {
+                Work::Top { fam, ci, cfg, li } => {
+                    let env = env_for_thread();
+                    let tally = &mut tallies[*fam];
+                    match chain_failure(cfg, catch(|| build_chains(cfg, None))) {
+                        Ok(chains) => {
+                            let answers = env.ask_top(cfg, &layouts, *li);
+                            tally.git_processes += 1;
+                            let mut pc = PerConfig { any_ignored: false, any_negative: false };
+                            for (q, g) in layouts[*li].queries.iter().zip(&answers) {
+                                judge(cfg, &chains, q, &q.path, g, tally, &mut pc, &mut found);
+                            }
+                            top_flags[*fam][*ci].fetch_or(
+                                pc.any_ignored as u8 | (pc.any_negative as u8) << 1,
+                                std::sync::atomic::Ordering::Relaxed,
+                            );
+                        }
+                        Err(m) => found.push(m),
+                    }
+                }
+                Work::Sub { fam, ci, cfg } => {
+                    let mut env = env_for_thread();
+                    let tally = &mut tallies[*fam];
+                    let before = tally.git_ignored;
                     // every 389th configuration is also asked through a fresh git process
-                    let mode = if i % 389 == 0 { SubMode::Both } else { SubMode::Stream };
+                    let mode = if ci % 389 == 0 { SubMode::Both } else { SubMode::Stream };
                     if mode == SubMode::Both {
                         cross_checked.inc();
                     }
-                    run_sub(cfg, &mut env, &layouts, mode, &mut tally)
-                } else {
-                    run_top(cfg, &env, &layouts, ctx.thorough(), &mut tally)
-                };
-                for m in found {
-                    if m.signature != CR_AT_EOF_SIGNATURE {
-                        other_violations.inc();
+                    found = run_sub(cfg, &mut env, &layouts, mode, tally);
+                    if tally.git_ignored > before + 10 && samples.wants_more() && ci % 7 == 3 {
+                        samples.offer(|| cfg.to_json());
                     }
-                    ctx.violation(&m.signature, m.message, m.case);
                 }
-                if tally.git_ignored > before + 10 && samples.wants_more() && i % 7 == 3 {
-                    samples.offer(|| cfg.to_json());
+                Work::Snap { cfg, li } => match check_snapshot(cfg, &layouts[*li]) {
+                    Ok((t, i)) => {
+                        snap_runs.inc();
+                        snap_tracked.add(t as u64);
+                        snap_ignored.add(i as u64);
+                    }
+                    Err(m) => found.push(m),
+                },
+            }
+            for m in found {
+                if m.signature != CR_AT_EOF_SIGNATURE {
+                    other_violations.inc();
                 }
-                tally
-            })
-            .reduce(Tally::default, |mut a, b| {
-                a.merge(b);
-                a
-            });
-        if tally.configs != cfgs.len() as u64 {
+                ctx.violation(&m.signature, m.message, m.case);
+            }
+            tallies
+        })
+        .reduce(new_tallies, |mut a, b| {
+            for (x, y) in a.iter_mut().zip(b) {
+                x.merge(y);
+            }
+            a
+        });
+    for e in &envs {
+        e.lock().unwrap().shutdown();
+    }
+    let mut total = Tally::default();
+    let mut family_counts = serde_json::Map::new();
+    for (fam, (name, cfgs)) in fams.iter().enumerate() {
+        let mut tally = std::mem::take(&mut fam_tallies[fam]);
+        for (ci, cfg) in cfgs.iter().enumerate() {
+            if !cfg.sub {
+                let f = top_flags[fam][ci].load(std::sync::atomic::Ordering::Relaxed);
+                tally.configs += 1;
+                tally.configs_with_ignored += (f & 1) as u64;
+                tally.configs_with_negative += (f >> 1 & 1) as u64;
+            }
+        }
+        if tally.configs != cfgs.len() as u64 && other_violations.get() == 0 {
             machinery_failure(&format!("family {name}: {} of {} configurations were evaluated", tally.configs, cfgs.len()));
+        }
+        if tally.comparisons == 0 && other_violations.get() == 0 {
+            machinery_failure(&format!("family {name}: nothing was compared"));
+        }
+        if let Some(c) = cfgs.get(cfgs.len() / 2) {
+            samples.offer(|| c.to_json());
         }
         family_counts.insert(
             name.to_string(),
@@ -1425,40 +1527,15 @@ fn main() {
                    "git_processes": tally.git_processes}),
         );
         total.merge(tally);
-        eprintln!(
-            "[C28] family {name}: {} configurations, {} git processes so far, {:.1}s (cumulative git wait {:.1}s)",
-            cfgs.len(),
-            total.git_processes,
-            ctx.elapsed_s(),
-            GIT_NANOS.load(std::sync::atomic::Ordering::Relaxed) as f64 / 1e9
-        );
     }
-    for e in &envs {
-        e.lock().unwrap().shutdown();
-    }
-
-    // route 2
-    let snap_cfgs = snapshot_family(ctx.thorough(), &ls);
-    let snap_runs = Counter::new();
-    let snap_tracked = Counter::new();
-    let snap_ignored = Counter::new();
-    snap_cfgs.par_iter().for_each(|cfg| {
-        let l1 = if cfg.nested.is_some() { L1N } else { L1 };
-        for li in [l1, L2, L3] {
-            match check_snapshot(cfg, &layouts[li]) {
-                Ok((t, i)) => {
-                    snap_runs.inc();
-                    snap_tracked.add(t as u64);
-                    snap_ignored.add(i as u64);
-                }
-                Err(m) => {
-                    other_violations.inc();
-                    ctx.violation(&m.signature, m.message, m.case)
-                }
-            }
-        }
-    });
-    eprintln!("[C28] snapshot route: {} snapshots, {:.1}s", snap_runs.get(), ctx.elapsed_s());
+    eprintln!(
+        "[C28] {} configurations + {} snapshots, {} git processes, {:.1}s (git wait summed over threads {:.1}s)",
+        total.configs,
+        snap_runs.get(),
+        total.git_processes,
+        ctx.elapsed_s(),
+        GIT_NANOS.load(std::sync::atomic::Ordering::Relaxed) as f64 / 1e9
+    );
 
     // vacuity: which rules decided at least one query
     let mut decided_lines: BTreeMap<&str, BTreeSet<&str>> = BTreeMap::new();
